@@ -26,14 +26,20 @@ def imp(kind, ident, **v):
 
 
 SETS = {0: ('express', dict(maxloss=16.5, pmd=1e-12, pdl=0.3)), 1: ('add', dict(maxloss=11.5, pmd=2e-12, pdl=0.5, osnr=41)),
-        2: ('drop', dict(maxloss=9.0, pmd=3e-12, pdl=0.7, osnr=39)), 3: ('express', dict(maxloss=6.0, pmd=4e-12, pdl=0.9))}
+        2: ('drop', dict(maxloss=9.0, pmd=3e-12, pdl=0.7, osnr=39)), 3: ('express', dict(maxloss=6.0, pmd=4e-12, pdl=0.9)),
+        4: ('drop', dict(maxloss=13.0, pmd=5e-12, pdl=1.1, osnr=33)), 5: ('add', dict(maxloss=7.0, pmd=6e-12, pdl=1.3, osnr=36))}
 eq_json = load_json(EXAMPLE / 'eqpt_config.json')
 eq_json['Roadm'].append({'type_variety': 'detailed', 'target_pch_out_db': -20, 'add_drop_osnr': 35, 'pmd': 0, 'pdl': 0,
                          'restrictions': {'preamp_variety_list': [], 'booster_variety_list': []},
-                         'roadm-path-impairments': [imp(k, i, **v) for i, (k, v) in SETS.items()]})
-for name in (['ring3', 'star4'] if a.tier == 'quick' else ['ring3', 'star4', 'mesh4']):
+                         'roadm-path-impairments': None})
+# the sets are listed in two orders: the default of a crossing type is the first listed set of that type, a pair of degrees may
+# name any other set of its type (set 0 included, also when it is not the first of its type)
+for name, order in itertools.product((['ring3', 'star4'] if a.tier == 'quick' else ['ring3', 'star4', 'mesh4']), ((0, 1, 2, 3, 4, 5), (5, 4, 3, 2, 1, 0))):
     sites, links = TOPOLOGIES[name]
-    for special in (None, 'express-pair-with-own-set'):
+    eq_json['Roadm'][-1]['roadm-path-impairments'] = [imp(SETS[i][0], i, **SETS[i][1]) for i in order]
+    default = {kind: next(i for i in order if SETS[i][0] == kind) for kind in ('express', 'add', 'drop')}
+    other = {kind: next(i for i in order if SETS[i][0] == kind and i != default[kind]) for kind in ('express', 'add', 'drop')}
+    for special in (None, 'express-pair-with-own-set', 'add-pair-with-own-set', 'drop-pair-with-own-set'):
         topo = mesh(sites, links, spans={l: [60] for l in links})
         hub = sites[0]
         for e in topo['elements']:
@@ -47,8 +53,9 @@ for name in (['ring3', 'star4'] if a.tier == 'quick' else ['ring3', 'star4', 'me
         trx = {n.uid for n in net.nodes() if isinstance(n, Transceiver)}
         own = {}
         if special:
-            fr = next(i for i in ins if i not in trx)
-            to = next(o for o in outs if o not in trx and o.split('to')[-1] != fr.split('from')[-1])
+            skind = special.split('-')[0]
+            fr = next(i for i in ins if (i in trx) == (skind == 'add'))
+            to = next(o for o in outs if (o in trx) == (skind == 'drop') and (o in trx or o.split('to')[-1] != fr.split('from')[-1]))
             # re-load with the pair declared on the element
             j = deepcopy(topo)
             net0, _ = net, None
@@ -56,18 +63,18 @@ for name in (['ring3', 'star4'] if a.tier == 'quick' else ['ring3', 'star4', 'me
             jj = network_to_json(net)
             for e in jj['elements']:
                 if e['uid'] == r.uid:
-                    e['params']['per_degree_impairments'] = [{'from_degree': fr, 'to_degree': to, 'impairment_id': 3}]
+                    e['params']['per_degree_impairments'] = [{'from_degree': fr, 'to_degree': to, 'impairment_id': other[skind]}]
             eq = _equipment_from_json(deepcopy(eq_json), DEFAULT_EXTRA_CONFIG)
             net, eq = design(jj, eq)
             r = next(n for n in net.nodes() if n.uid == f'roadm {hub}')
-            own[(fr, to)] = 3
+            own[(fr, to)] = other[skind]
         freq = np.array([191.4e12, 193.0e12, 195.9e12])
         for fr, to in itertools.product(ins, outs):
             if fr in trx and to in trx:
                 continue
             cases += 1
             kind = 'add' if fr in trx else 'drop' if to in trx else 'express'
-            ident = own.get((fr, to), {'express': 0, 'add': 1, 'drop': 2}[kind])
+            ident = own.get((fr, to), default[kind])
             exp = SETS[ident][1]
             prob = []
             for key in ('maxloss', 'pmd', 'pdl'):
@@ -99,9 +106,10 @@ for name in (['ring3', 'star4'] if a.tier == 'quick' else ['ring3', 'star4', 'me
             except Exception as e:
                 prob.append(f'{type(e).__name__}: {e}'[:200])
             if prob:
-                wit.append({'key': f'{name}:{special}:{fr}->{to}', 'problems': prob[:3]})
+                wit.append({'key': f'{name}:sets listed {order}:{special}:{fr}->{to}', 'problems': prob[:3]})
 finish('ROADM crossings use the impairments of their own type (add / drop / express / per-pair set): loss, PMD, PDL, OSNR; output = min(target, in - loss)',
        'bounded', 'gnpy.core.network.set_roadm_internal_paths, gnpy.core.elements.Roadm.get_impairment / get_roadm_path / propagate',
-       'hub ROADM of ring3, star4[, mesh4] with four impairment sets (express 16.5 dB, add 11.5 dB, drop 9 dB, alternative express 6 dB), every '
-       'ingress x egress pair, one pair re-declared with its own set; three channels above / at / below target + loss', cases, wit,
+       'hub ROADM of ring3, star4[, mesh4] with six impairment sets (two each of express, add, drop) listed in two orders, every '
+       'ingress x egress pair, one express / add / drop pair re-declared with the other set of its type (set id 0 included); three channels '
+       'above / at / below target + loss', cases, wit,
        nontrivial=nontriv, t0=t0)
